@@ -32,7 +32,8 @@ REQUIRED_MONITORS = ["cell-functional-exact", "facet-functional-exact", "subdoma
                      "mass-matrix-exact", "stiffness-matrix-exact", "load-vector-exact", "mass-sum-is-measure",
                      "copies-agree"]
 REQUIRED_REACH = ["negative-det-cells", "non-affine-cells", "default-order", "facet-subset", "rigid-motion",
-                  "refined-copy", "renumbered-copy", "degree-beyond-strength-skipped",
+                  "refined-copy", "renumbered-copy", "rigid-motion-by-library", "tagged-subdomain-through-refinement",
+                  "tagged-facets-through-refinement", "degree-beyond-strength-skipped",
                   "equal-size-subdomains-on-one-mesh", "overlapping-tags-union", "overlapping-facet-tags-union",
                   "input:small-units", "input:float32-vertices", "input:non-contiguous-arrays",
                   "interior-facet-basis-with-order", "every-cell-order", "every-facet-order", "facet-basis-default-order",
@@ -658,6 +659,18 @@ def mass_sums(ctx, k, kind):
 
 
 # ------------------------------------------------------------------ copies
+class _quiet:
+    """Silence the library's 'named boundaries invalidated' warnings (C12's subject)."""
+    def __enter__(self):
+        import logging
+        self.lg = logging.getLogger("skfem")
+        self.lvl = self.lg.level
+        self.lg.setLevel(logging.ERROR)
+
+    def __exit__(self, *a):
+        self.lg.setLevel(self.lvl)
+
+
 def copies(ctx, k, kind):
     """The same integral on renumbered / refined / rigidly moved copies (each also against its own exact value)."""
     import skfem
@@ -725,6 +738,51 @@ def copies(ctx, k, kind):
         a4 = one.assemble(skfem.CellBasis(m4, elem(), intorder=max(n, d)))
         ctx.close("copies-agree", a4, a0, rtol=1e-11, scale=abs(a0), mech=f"rigid-measure:{kind}")
         ctx.reached("rigid-motion")
+        # the same motion made by the library itself (morphed with one function per coordinate, then translated): the
+        # integral over the moved mesh is that of the harness' own moved copy, and the source mesh is still the source
+        if mesh.t.shape[1] <= 60:
+            funcs = [(lambda P, i=i: sum(float(R[i, j]) * P[j] for j in range(d))) for i in range(d)]
+            m6 = mesh.morphed(*funcs).translated(tuple(float(v) for v in shift[:, 0]))
+            v6 = skfem.Functional(poly_fn(e)).assemble(skfem.CellBasis(m6, elem(), intorder=n))
+            ctx.close("copies-agree", v6, float(r4[0]), rtol=1e-10, scale=r4[1], mech=f"rigid-by-library:{kind}", monomial=e,
+                      desc=mc.desc)
+            a6 = one.assemble(skfem.CellBasis(m6, elem(), intorder=max(n, d)))
+            ctx.close("copies-agree", a6, a0, rtol=1e-11, scale=abs(a0), mech=f"rigid-by-library-measure:{kind}", desc=mc.desc)
+            again = skfem.Functional(poly_fn(e)).assemble(skfem.CellBasis(mesh, elem(), intorder=n))
+            ctx.close("copies-agree", again, total, rtol=1e-12, scale=scale, mech=f"source-mesh-after-rigid-motion:{kind}", monomial=e)
+            ctx.reached("rigid-motion-by-library")
+    # tagged domains through refinement: "any tagged subdomain or any set of facets ... does not depend on refining the
+    # mesh" - where the refined mesh still carries the names, the integral over the name is what it was on the parent
+    if kind in ("line", "tri", "quad", "tet", "hex") and mesh.t.shape[1] <= 40:
+        nt_ = mesh.t.shape[1]
+        S = np.sort(rng.choice(nt_, size=max(1, nt_ // 2), replace=False)).astype(np.int32)
+        bfac = np.asarray(mesh.boundary_facets())
+        A = np.sort(rng.choice(bfac, size=max(1, bfac.size // 2), replace=False)).astype(np.int32)
+        rs = exact_cells(mesh, kind, poly, S, n)
+        tagged = type(mesh)(np.asarray(mesh.p, dtype=float).copy(), np.asarray(mesh.t)[:nv].astype(np.int64))
+        tagged = tagged.with_subdomains({"s": S}).with_boundaries({"a": A})
+        with _quiet():
+            m7 = tagged.refined(1)
+        if rs is not None and rs[2] and m7.subdomains is not None and "s" in m7.subdomains:
+            v7 = skfem.Functional(poly_fn(e)).assemble(skfem.CellBasis(m7, elem(), elements="s", intorder=n))
+            ctx.close("copies-agree", v7, float(rs[0]), rtol=1e-11, scale=rs[1], mech=f"tagged-subdomain-refined:{kind}", monomial=e,
+                      desc=mc.desc)
+            ctx.reached("tagged-subdomain-through-refinement")
+        if kind != "line" and m7.boundaries is not None and "a" in m7.boundaries:
+            tot, sc, ok = 0.0, 0.0, True
+            for f_ in A:
+                rf = facet_exact(mesh, kind, poly, int(f_), n)
+                if rf is None:
+                    ok = None
+                    break
+                tot += rf[0]
+                sc += rf[1]
+                ok &= rf[2]
+            if ok:
+                v8 = skfem.Functional(poly_fn(e)).assemble(skfem.FacetBasis(m7, elem(), facets="a", intorder=n))
+                ctx.close("copies-agree", v8, tot, rtol=1e-11, scale=sc, mech=f"tagged-facets-refined:{kind}", monomial=e,
+                          desc=mc.desc)
+                ctx.reached("tagged-facets-through-refinement")
     if total != 0:
         ctx.nontrivial(kind, geom, n, "copies", sum(e))
 
